@@ -823,6 +823,49 @@ class SBytes:
             return False
         return bool(SBytes(self.items[:_real_len(p)]) == SBytes(p))
 
+    def endswith(self, suffix):
+        p = tobytes_items(suffix)
+        if _real_len(p) > _real_len(self.items):
+            return False
+        return bool(SBytes(self.items[_real_len(self.items) - _real_len(p):]) == SBytes(p))
+
+    def find(self, sub, start=0, end=None):
+        """First position of `sub` (one fork per candidate position)."""
+        ENGINE.models_used.add("bytes.find/index/partition on symbolic bytes (one branch per position)")
+        p = tobytes_items([sub] if _real_isinstance(sub, int) else sub)
+        n, m = _real_len(self.items), _real_len(p)
+        start, end, _ = slice(start, end).indices(n)
+        for i in range(start, end - m + 1):
+            if bool(SBytes(self.items[i:i + m]) == SBytes(p)):
+                return i
+        return -1
+
+    def index(self, sub, start=0, end=None):
+        i = self.find(sub, start, end)
+        if i < 0:
+            raise ValueError("subsection not found")
+        return i
+
+    def partition(self, sep):
+        i = self.find(sep)
+        if i < 0:
+            return _mkbytes(self.items), b"", b""
+        m = _real_len(tobytes_items(sep))
+        return _mkbytes(self.items[:i]), bytes(sep), _mkbytes(self.items[i + m:])
+
+    def count(self, sub):
+        p = tobytes_items([sub] if _real_isinstance(sub, int) else sub)
+        n, m, c, i = _real_len(self.items), _real_len(p), 0, 0
+        if m == 0:
+            return n + 1
+        while i <= n - m:
+            if bool(SBytes(self.items[i:i + m]) == SBytes(p)):
+                c += 1
+                i += m
+            else:
+                i += 1
+        return c
+
 
 class SByteArray:
     """bytearray() created inside instrumented code (the LEB128 writer appends symbolic bytes)."""
